@@ -1,0 +1,31 @@
+//go:build verif
+
+// Package verifhook provides the hook points used by the verification harness
+// in /verif.  With the build tag "verif" a registered callback is invoked
+// synchronously at each point; it may record the event, take a snapshot of
+// the file system, or block the calling goroutine until released.
+package verifhook
+
+import "sync"
+
+var (
+	mu sync.RWMutex
+	cb func(label string, kv ...any)
+)
+
+// Set registers the callback (nil removes it).
+func Set(f func(label string, kv ...any)) {
+	mu.Lock()
+	cb = f
+	mu.Unlock()
+}
+
+// Point marks a step of interest.
+func Point(label string, kv ...any) {
+	mu.RLock()
+	f := cb
+	mu.RUnlock()
+	if f != nil {
+		f(label, kv...)
+	}
+}
